@@ -150,6 +150,64 @@ def uses():
             yield "no-use", [assign("v", m), ("with", [("a", m)], [text("w")]), ("render", "s", None, [("a", m)]), ("render", "s", (m, False, None), []), text("ok")], m
 
 
+FILTER_TEMPLATES = [
+    # a missing variable as an ARGUMENT of a filter (array filters compare it with item attributes, string/math filters use it)
+    "{{ items | where: 'ok', wanted | map: 'id' | join: ',' }}", "{{ items | reject: 'ok', wanted | map: 'id' | join: ',' }}",
+    "{{ items | find: 'ok', wanted | json }}", "{{ items | find_index: 'ok', wanted }}", "{{ items | has: 'ok', wanted }}",
+    "{{ items | where: wanted | size }}", "{{ items | map: wanted | join: ',' }}", "{{ items | sort: wanted | map: 'id' | join: ',' }}",
+    "{{ items | sum: wanted }}", "{{ names | join: wanted }}", "{{ names | concat: wanted | size }}", "{{ title | append: wanted }}",
+    "{{ title | prepend: wanted }}", "{{ title | replace: wanted, 'x' }}", "{{ title | replace: 'l', wanted }}", "{{ title | remove: wanted }}",
+    "{{ title | split: wanted | size }}", "{{ title | truncate: wanted }}", "{{ title | slice: wanted }}", "{{ n | plus: wanted }}",
+    "{{ n | minus: wanted }}", "{{ n | times: wanted }}", "{{ n | divided_by: wanted }}", "{{ n | at_least: wanted }}",
+    "{{ title | default: wanted }}", "{{ wanted | default: title }}", "{{ flag | default: wanted, allow_false: true }}",
+    "{% assign v = items | has: 'ok', wanted %}{{ v }}", "{% if items contains wanted %}y{% else %}n{% endif %}",
+    "{% for i in items limit: wanted %}{{ i.id }}{% endfor %}", "{% for i in (1..wanted) %}{{ i }}{% endfor %}",
+    "{% cycle wanted, 'b' %}", "{% case wanted %}{% when nil %}n{% when false %}f{% else %}e{% endcase %}",
+    "{% case flag %}{% when wanted %}w{% else %}e{% endcase %}",
+]
+FILTER_DATAS = [
+    {"items": [{"id": 1, "ok": False}, {"id": 2, "ok": False}], "names": ["a", "b"], "title": "hello", "n": 3, "flag": False},
+    {"items": [{"id": 1, "ok": True}, {"id": 2}, {"id": 3, "ok": None}], "names": [], "title": "", "n": 0, "flag": None},
+    {"items": [], "names": ["x"], "title": "l", "n": -1, "flag": True},
+]
+
+
+def filter_family(ck: Check) -> None:
+    """Refinement on the implementation for a missing variable used as a filter / tag ARGUMENT, over every built-in filter
+    family (oracle only: the model has three filters): a render that succeeds under a strict undefined type gives the default
+    type's output, and the default type raises no UndefinedError."""
+    from liquid import Environment
+    import liquid.undefined as U
+
+    from ..core import classify_exc, run_async
+
+    envs = {k: Environment(undefined=c) for k, c in (("default", U.Undefined), ("strict", U.StrictUndefined),
+                                                     ("falsy", U.FalsyStrictUndefined), ("strictdefault", U.StrictDefaultUndefined))}
+
+    def go(env, src, data, use_async):
+        try:
+            t = env.from_string(src)
+            return ("out", run_async(t.render_async(**data)) if use_async else t.render(**data))
+        except Exception as e:  # noqa: BLE001
+            return ("err", classify_exc(e))
+
+    for src in FILTER_TEMPLATES:
+        for di, data in enumerate(FILTER_DATAS):
+            base = go(envs["default"], src, data, False)
+            ck.note_case(("filter-arg", src, di))
+            ck.count("filter-args")
+            if base == ("err", "EUndefined"):
+                ck.violation("impl-violation", "default-raises-undefined:" + src[:60], f"{src!r} data {data!r}: the default undefined type raises UndefinedError",
+                             {"type": "filter-arg", "template": src, "data": data, "kind": "default", "default": base})
+            for k in ("strict", "falsy", "strictdefault"):
+                for use_async in (False, True):
+                    o = go(envs[k], src, data, use_async)
+                    if o[0] == "out" and o != base:
+                        ck.violation("impl-violation", f"{k}-output-differs-from-default:" + src[:60],
+                                     f"{src!r} data {data!r}: {k} undefined renders {o} ({'async' if use_async else 'sync'}), the default type {base}",
+                                     {"type": "filter-arg", "template": src, "data": data, "kind": k, "async": use_async, "strict": o, "default": base})
+
+
 def run(ck: Check) -> None:  # noqa: PLR0912, PLR0915
     ck.rule = (
         "seeded templates over 40 paths of length 1..4 (names, indexes, size/first/last, nested variables) into nested data: output with "
@@ -172,6 +230,7 @@ def run(ck: Check) -> None:  # noqa: PLR0912, PLR0915
         "filters: upcase, size, default with a literal argument; autoescape off; ASCII letters/digits in strings",
     ]
     ck.proof()
+    filter_family(ck)
     L.STRINGS.reset()
     rng = ck.rng
 
@@ -256,6 +315,28 @@ def run(ck: Check) -> None:  # noqa: PLR0912, PLR0915
 
 
 def replay(data) -> int:
+    if data["case"].get("type") == "filter-arg":
+        from liquid import Environment
+        import liquid.undefined as U
+
+        from ..core import classify_exc, run_async
+
+        c = data["case"]
+        cls = {"default": U.Undefined, "strict": U.StrictUndefined, "falsy": U.FalsyStrictUndefined, "strictdefault": U.StrictDefaultUndefined}
+
+        def go(k, use_async):
+            try:
+                t = Environment(undefined=cls[k]).from_string(c["template"])
+                return ("out", run_async(t.render_async(**c["data"])) if use_async else t.render(**c["data"]))
+            except Exception as e:  # noqa: BLE001
+                return ("err", classify_exc(e))
+
+        base = go("default", False)
+        o = go(c["kind"], c.get("async", False))
+        bad = base == ("err", "EUndefined") if c["kind"] == "default" else (o[0] == "out" and o != base)
+        print("template:", c["template"], "data:", c["data"], "default:", base, c["kind"] + ":", o)
+        print(("VIOLATION reproduced" if bad else "not reproduced") + f" property={data['property']}")
+        return 1 if bad else 0
     case = data["case"]
     if case.get("type") != "kinds":
         print("replay names a proof/correspondence obligation:", case)
